@@ -541,6 +541,11 @@ class UniqueVariableNamesChecker(ValidationVisitor):
     def leave_operation_definition(self, _node):
         self._variables.clear()
 
+    # Fragments define variables of their own when the parser's experimental
+    # fragment variables are in use.
+    enter_fragment_definition = enter_operation_definition
+    leave_fragment_definition = leave_operation_definition
+
     def enter_variable_definition(self, node):
         name = node.variable.name.value
         if name in self._variables:
